@@ -256,6 +256,16 @@ func ruleC18Block(cx *Ctx) {
 	}
 	got := newInliningTermBuilder().of(maskStore.Val).String()
 	wantMask := mk("-", mk(">>", mk("builtin:len", mk("field:table", tVar("param0"))), tConst(3)), tConst(1)).String()
+	if got != wantMask {
+		// the length the table was just made with, instead of len(table) read back: the same number
+		if mkS, ok := tableStore.Val.(*ssa.MakeSlice); ok {
+			tb := newInliningTermBuilder()
+			tb.subst[mkS.Len] = tVar("L")
+			if tb.of(maskStore.Val).String() == mk("-", mk(">>", tVar("L"), tConst(3)), tConst(1)).String() {
+				got = wantMask
+			}
+		}
+	}
 	cx.R.Check(got == wantMask && instrDominates(tableStore, maskStore), rule, name, "blockMask", cx.P.where(maskStore),
 		"blockMask = len(table)>>3 - 1 computed after the table was replaced (got "+got+")")
 	// table length: power of two, >= 8
@@ -375,6 +385,57 @@ func ruleC18Sat(cx *Ctx) {
 			}
 		}
 	})
+	if masked == 0 {
+		// the minimum written out (if count < frequency { frequency = count }): the value returned is a phi over the
+		// initial maximum and masked counters
+		allInstrs(freq, func(in ssa.Instruction) {
+			ret, ok := in.(*ssa.Return)
+			if !ok || len(ret.Results) != 1 {
+				return
+			}
+			var phis []*ssa.Phi
+			seenPhi := map[*ssa.Phi]bool{}
+			var grow func(v ssa.Value)
+			grow = func(v ssa.Value) {
+				if ph, isPhi := v.(*ssa.Phi); isPhi && !seenPhi[ph] {
+					seenPhi[ph] = true
+					phis = append(phis, ph)
+					for _, e := range ph.Edges {
+						grow(e)
+					}
+				}
+			}
+			grow(ret.Results[0])
+			all, n := true, 0
+			for _, ph := range phis {
+				for _, e := range ph.Edges {
+					if _, isPhi := e.(*ssa.Phi); isPhi {
+						continue
+					}
+					if _, isC := constUint(e); isC {
+						continue
+					}
+					t := newInliningTermBuilder().of(e)
+					okE := false
+					if t.Op == "&" && len(t.Args) == 2 {
+						for i := 0; i < 2; i++ {
+							if t.Args[i].isConst() && t.Args[i].C == 15 {
+								okE = true
+							}
+						}
+					}
+					if okE {
+						n++
+					} else {
+						all = false
+					}
+				}
+			}
+			if all && n > 0 {
+				masked = n
+			}
+		})
+	}
 	cx.R.Check(masked >= 1, rule, funcName(freq), "4-bit mask", cx.P.Pos(freq.Pos()), "each counter is masked to 4 bits before the minimum is taken (estimate <= 15)")
 }
 
